@@ -771,13 +771,17 @@ class SimLoop(base_events.BaseEventLoop):
             await tasks.sleep(0)
         return srv
 
-    def _connect_pair(self, host, port, cproto, owner):
+    def _connect_pair(self, host, port, cproto, owner, source_port=None):
         net = self.net
         srv = net.listeners.get(port)
         if srv is None or srv.closed:
             raise ConnectionRefusedError(errno.ECONNREFUSED, f"Connect call failed ({host!r}, {port})")
-        cport = net.next_port
-        net.next_port += 1
+        if source_port is not None:
+            # the peer binds its socket to a port of its choice (one it has used before and given up)
+            cport = source_port
+        else:
+            cport = net.next_port
+            net.next_port += 1
         chost = "127.0.0.1" if ":" not in (host or "") else "::1"
         ct = SimTransport(self, net, owner, f"c{cport}", (chost, cport), (host, port), net.window)
         st = SimTransport(self, net, "server", f"s{cport}", (srv.host, port), (chost, cport), net.window)
